@@ -139,10 +139,14 @@ type serverConn struct {
 }
 
 func (sc *serverConn) closeIdleConn() {
-	sc.writeGoAway(0, NoError, "connection has been idle for a long time")
 	if sc.debug {
 		sc.logger.Printf("Connection is idle. Closing\n")
 	}
+
+	// handleStreams sends the GOAWAY when it sees this. Sending it from here,
+	// on the timer's goroutine, raced with a request being dispatched: the
+	// frame could name a last-stream-id below a stream whose handler then ran,
+	// and the client would have sent that request again elsewhere.
 	close(sc.closer)
 }
 
@@ -636,6 +640,8 @@ loop:
 
 		select {
 		case <-sc.closer:
+			sc.writeGoAway(0, NoError, "connection has been idle for a long time")
+
 			break loop
 		case strm := <-sc.handlerDone:
 			strm.handlerRunning = false
